@@ -109,6 +109,7 @@ def explore(ctx):
         if o.accepted and any(rc != 0 for (_c, rc, _w, _l) in o.testlog):
             ctx.nontriv(repr((sc['files'], sc['group'], sc['rules'], sc['cfg'], sc['sched'])))
     real_lines(ctx, rnd)
+    real_lines_sanity_fault(ctx)
     ctx.sample({'reduce_scenario': {k: red[0][2][k] for k in ('files', 'group', 'rules', 'cfg', 'sched')}, 'impl_output': red[0][1][:40]})
     for nm, fn, cs in (('c01e', 'sc_run_each', each), ('c01r', 'sc_reduce', red)):
         bad = coq.corr_eval(nm, IMPORTS, fn, [(a, b) for a, b, _ in cs], shard=100)
@@ -152,8 +153,34 @@ def real_lines(ctx, rnd):
                         ctx.nontriv(repr(('lines', arg, text, rules_k, k)))
 
 
+def real_lines_sanity_fault(ctx):
+    """the sanity check that LinesPass.new() runs on the reformatted file does not complete (the test directory cannot be
+    filled: disk full, permission): C-Vise stops with that error, and the user's file must be the original again"""
+    import os
+    from cvise.passes.lines import LinesPass
+    standin = os.path.join(os.environ.get('VERIF_ROOT', '/verif'), 'tools', 'standins', 'topformflat')
+    text = 'int a;int b;\nint c; { x; y; }\n'
+    for arg in ('0', '1'):
+        for en in (28, 13):
+            for k in (1, 2):
+                sc = {'files': [('t.c', text), ('d/u.c', 'keep;\n')][:k], 'rules': [([('has', 0, ';')], 0)], 'passes': [],
+                      'cfg': {'N': 1, 'no_cache': True}, 'sched': [1] * 10, 'copy_fault': 1, 'copy_fault_errno': en,
+                      'real_pass': f'lines::{arg} sanity-fault'}
+                p = LinesPass(arg, {'topformflat': standin})
+                p.max_transforms = None
+                o = driver.run_scenario(sc, ctx.tmp, real_passes=[p])
+                ctx.evaluations += 1
+                ctx.count('real-lines-pass:sanity-check-interrupted')
+                if not o.diverged:
+                    oracle(ctx, sc, o, 'each')
+                    ctx.nontriv(repr(('lines-sanity-fault', arg, en, k)))
+
+
 def replay(ctx, payload):
     r = payload['replay']
+    if 'sanity-fault' in str(r['scenario'].get('real_pass', '')):
+        real_lines_sanity_fault(ctx)
+        return
     if r['scenario'].get('real_pass'):
         real_lines(ctx, random.Random(1))
         return
